@@ -245,7 +245,23 @@ func enumerate(fn *ssa.Function, opt LeafOptions, cx *callCtx, cut bool) ([]*Lea
 				return gs, true
 			}
 		}
-		return append(append([]*Term{}, gs...), g), true
+		out := append(append([]*Term{}, gs...), g)
+		// k is not a key of a map of booleans: m[k] is false
+		if g.Op == OUn && g.Str == "!" && len(g.Args) == 1 {
+			if ex := g.Args[0]; ex.Op == OExtract && ex.N == 1 && len(ex.Args) == 1 {
+				if lk := ex.Args[0]; lk.Op == OLookup && lk.Str == "ok" && len(lk.Args) == 2 && lk.Typ != nil {
+					if bt, ok := lk.Typ.Underlying().(*types.Basic); ok && bt.Info()&types.IsBoolean != 0 {
+						val := &Term{Op: OLookup, Args: lk.Args, Typ: lk.Typ}
+						if r, keep := addGuardPlain(out, NotCond(val)); keep {
+							out = r
+						} else {
+							return gs, false
+						}
+					}
+				}
+			}
+		}
+		return out, true
 	}
 	var walk func(blk, pred *ssa.BasicBlock, st state)
 	walk = func(blk, pred *ssa.BasicBlock, st state) {
@@ -471,6 +487,17 @@ func enumerate(fn *ssa.Function, opt LeafOptions, cx *callCtx, cut bool) ([]*Lea
 						}
 					}
 				}
+				if ld, ok := in.(*ssa.UnOp); ok && ld.Op == token.MUL && opt.Inline != nil && bind[ld] == nil {
+					// a load of a literal global is the literal (globals.go)
+					if g, isG := ld.X.(*ssa.Global); isG {
+						if lit := literalOf(g); lit != nil {
+							for n, f := range lit.fns {
+								opt.funcs[n] = f
+							}
+							setBind(ld, lit.val)
+						}
+					}
+				}
 				if lk, ok := in.(*ssa.Lookup); ok && opt.Inline != nil && bind[lk] == nil {
 					if ft := lookupTable(lk); ft != nil {
 						// a look-up in a function table is a switch on the key (functab.go)
@@ -517,6 +544,11 @@ func enumerate(fn *ssa.Function, opt LeafOptions, cx *callCtx, cut bool) ([]*Lea
 							}
 						}
 					}
+					if callee != nil && callee.Origin() != nil && strings.HasPrefix(callee.Synthetic, "instantiation wrapper") && len(callee.Origin().Blocks) > 0 && len(callee.Origin().Params) == len(callee.Params) && opt.Inline(callee) {
+						// an instance of a generic helper only hands its arguments on to the generic body: expand that
+						// body at the call itself, where the arguments (a literal table, a constant) are known
+						callee = callee.Origin()
+					}
 					var closure *ssa.MakeClosure
 					if mc, isMC := call.Call.Value.(*ssa.MakeClosure); isMC && callee != nil && callee.Parent() != nil && !opt.stack[callee] {
 						closure = mc // a local closure called on the spot
@@ -542,6 +574,17 @@ func enumerate(fn *ssa.Function, opt LeafOptions, cx *callCtx, cut bool) ([]*Lea
 							cl, cerr = enumerate(callee, opt, &callCtx{args: args, off: off, free: free, mem: mem}, false)
 							delete(opt.stack, callee)
 							tr = func(t *Term) *Term { return t }
+						} else if hasListArg(args) && !opt.stack[callee] {
+							// handed a spelled-out table: expanded in the context of the call, so that loops over the
+							// table - also those of the helpers it hands the table on to - unroll
+							opt.stack[callee] = true
+							cl, cerr = enumerate(callee, opt, &callCtx{args: args, off: off}, false)
+							delete(opt.stack, callee)
+							if cerr == nil {
+								tr = func(t *Term) *Term { return t }
+							} else {
+								cl, cerr = leaves(callee, opt)
+							}
 						} else {
 							cl, cerr = leaves(callee, opt)
 						}
@@ -737,6 +780,31 @@ func enumerate(fn *ssa.Function, opt LeafOptions, cx *callCtx, cut bool) ([]*Lea
 		return nil, err
 	}
 	return out, nil
+}
+
+// hasListArg: one of the arguments is a spelled-out list (a literal table, a slice literal).
+func hasListArg(args []*Term) bool {
+	for _, a := range args {
+		if a != nil && a.Op == "list" {
+			return true
+		}
+	}
+	return false
+}
+
+// addGuardPlain adds a derived condition to a guard list: kept unless its negation is already there.
+func addGuardPlain(gs []*Term, g *Term) ([]*Term, bool) {
+	ng := NotCond(g).Key()
+	gk := g.Key()
+	for _, og := range gs {
+		if og.Key() == ng {
+			return gs, false
+		}
+		if og.Key() == gk {
+			return gs, true
+		}
+	}
+	return append(append([]*Term{}, gs...), g), true
 }
 
 // isBuilderPtr: t is *strings.Builder.
